@@ -43,31 +43,33 @@ def check_denominators(term, bb: B.Bounds, rule, construct, where, seen=None, ct
     seen = seen if seen is not None else set()
     results = []
 
-    def walk(t, b, path):
+    def walk(t, b, path, kpath=()):
         if not isinstance(t, T.Term):
             if isinstance(t, (list, tuple)):
                 for e in t:
-                    walk(e, b, path)
+                    walk(e, b, path, kpath)
             return
-        key = (t.uid, id(b.env) if path else 0)
+        # one visit per (term, refinement context); the context is the sequence of (condition, polarity, disjunct) that led here
+        # (not id(b.env): addresses are reused after collection, which made the walk skip contexts at random)
+        key = (t.uid, kpath)
         if key in seen:
             return
         seen.add(key)
         if t.op in ("np.where", "ite"):
             c, x, y = t.args
-            walk(c, b, path)
+            walk(c, b, path, kpath)
             for pol, v in ((True, x), (False, y)):
-                for e2 in B.refine_dnf(b, c, pol):
+                for k, e2 in enumerate(B.refine_dnf(b, c, pol)):
                     if not e2.infeasible:
-                        walk(v, b.sub(e2), path + [(T.show(c, 3), pol)])
+                        walk(v, b.sub(e2), path + [(T.show(c, 3), pol)], kpath + ((c.uid if isinstance(c, T.Term) else repr(c), pol, k),))
             return
         if t.op == "div":
             iv = b.iv(t.args[1])
             results.append((t, iv, iv.finite_nonzero, path))
         for a in t.args:
-            walk(a, b, path)
+            walk(a, b, path, kpath)
         for a in t.kwargs.values():
-            walk(a, b, path)
+            walk(a, b, path, kpath)
 
     walk(term, bb, [])
     return results
